@@ -12,8 +12,8 @@ CONSTANTS
  MaxByz = 0
  Faults <- FNone
  MaxFault = 0
- Tampers <- TSig
- MaxTamper = 1
+ Tampers <- TNone
+ MaxTamper = 0
  Plants <- PTwo
  MaxPlant = 1
  Ticks <- TkNone
